@@ -195,6 +195,7 @@ ASPECTS = {
     "C08": "relink(ref) iff a reference was assigned; relink(None) iff a plain value overrides an existing link (not for the sync's own write)",
     "C10": "a plain value that overrides an existing link ends it -- relink(None) is what cancels the pending asynchronous evaluation -- and a new reference replaces the old one (not for the sync's own write)",
     "C12": "class route writes the class default only, instance routes the instance store only -- and always record the value for the instance, also when it is the object the class default currently is",
+    "C16": "every value that is stored was validated first (a state stored unvalidated is outside what the generated schema describes)",
     "C14": "readonly always raises TypeError; constant on an initialized instance raises unless the identical object is assigned; a refused assignment neither stores nor installs a link (whose next update would rebind the constant)",
 }
 
@@ -219,6 +220,7 @@ def classify(c, got, want):
         out.add("C12" if (gstore and wstore) else ("C14" if c["constant"] or c["readonly"] else "C01"))
         if gstore and "validate" not in gtrace:
             out.add("C01")
+            out.add("C16")
         if wstore == "values" and gstore is None and not gexc and not wexc:
             # nothing recorded for the instance: it goes on following the class default it was explicitly given
             out.add("C12")
